@@ -154,7 +154,8 @@ func vhRender(n *vhR02) string {
 	body := ""
 	switch {
 	case n.lonce:
-		if n.kind != list {
+		// an empty stack contributes nothing: no operator without operands
+		if n.kind != list && len(parts) > 0 {
 			if n.sym == "" && padded {
 				body = " " + op + " "
 			} else {
@@ -215,17 +216,31 @@ func (b *vhB02) build(depth, maxw int) (Stack, *vhR02) {
 	}
 	cfg, _ := s.config()
 	d := &vhR02{kind: cfg.typ}
+	// the option word is installed when the node is complete (read-only and
+	// no-nesting would otherwise refuse the setters and pushes that build it)
+	var opt cfgFlag
 	if b.symOpt > 0 {
 		b.symOpt--
-		cfg.opt = cfgFlag(nondetUint16()) & (parens | cfold | nspad | lonce)
+		// the four rendering options and the four that must not matter to it
+		opt = cfgFlag(nondetUint16()) & vhOptMask
 	} else {
-		cfg.opt = cfgFlag(g.next(16)) & (parens | cfold | nspad | lonce)
+		v := g.next(16)
+		opt = cfgFlag(v) & (parens | cfold | nspad | lonce)
+		if v%3 == 0 {
+			opt |= ronly
+		}
+		if v%5 == 1 {
+			opt |= nnest | negidx
+		}
+		if v%7 == 2 {
+			opt |= fwdidx
+		}
 	}
 	if cfg.typ == list {
 		// lead-once on a LIST is outside the statement
-		cfg.opt &^= lonce
+		opt &^= lonce
 	}
-	d.paren, d.fold, d.nspad, d.lonce = cfg.opt&parens != 0, cfg.opt&cfold != 0, cfg.opt&nspad != 0, cfg.opt&lonce != 0
+	d.paren, d.fold, d.nspad, d.lonce = opt&parens != 0, opt&cfold != 0, opt&nspad != 0, opt&lonce != 0
 	switch g.next(4) {
 	case 1:
 		if cfg.typ == list {
@@ -308,6 +323,7 @@ func (b *vhB02) build(depth, maxw int) (Stack, *vhR02) {
 			d.elems = append(d.elems, &vhE02{sub: sd})
 		}
 	}
+	cfg.opt = opt
 	return s, d
 }
 
